@@ -18,6 +18,19 @@ type Violation struct {
 	Key      string          `json:"key"`    // stable identity of *what* fails (input / call site / history class); known findings match on it
 	Detail   string          `json:"detail"` // human readable
 	Case     json.RawMessage `json:"case"`   // replayable description (check specific)
+	// History is set by the orchestrator when the case alone does not fail in a fresh process but
+	// re-running the worker shard that found it does, every time: the failure depends on state the
+	// code under test keeps in the process between cases (package-level caches, pools, memos).
+	History *History `json:"history,omitempty"`
+	Shard   int      `json:"shard"`
+	NShards int      `json:"nshards"`
+}
+
+// History names the deterministic sequence of cases (one worker shard) that reproduces a violation.
+type History struct {
+	Tier    string `json:"tier"`
+	Shard   int    `json:"shard"`
+	NShards int    `json:"nshards"`
 }
 
 // Result is what one worker shard reports.
@@ -128,7 +141,7 @@ func (c *Ctx) Violation(prop, class, key, detail string, cas any) {
 	if err != nil {
 		raw, _ = json.Marshal(fmt.Sprint(cas))
 	}
-	c.Res.Violations = append(c.Res.Violations, Violation{Property: prop, Class: class, Key: key, Detail: detail, Case: raw})
+	c.Res.Violations = append(c.Res.Violations, Violation{Property: prop, Class: class, Key: key, Detail: detail, Case: raw, Shard: c.Shard, NShards: c.NShards})
 }
 
 func (c *Ctx) HarnessError(format string, a ...any) {
